@@ -113,6 +113,19 @@ def terminates(stmts):
     return False
 
 
+def stops_at_end(test):
+    """the condition is false once the position is past the last token: a (truthy / `is True`) check_token, or a conjunction
+    that contains one"""
+    if is_ctx_call(test, "check_token"):
+        return True
+    if isinstance(test, ast.Compare) and len(test.ops) == 1 and isinstance(test.ops[0], ast.Is) and is_ctx_call(test.left, "check_token") \
+            and isinstance(test.comparators[0], ast.Constant) and test.comparators[0].value is True:
+        return True
+    if isinstance(test, ast.BoolOp) and isinstance(test.op, ast.And):
+        return any(stops_at_end(v) for v in test.values)
+    return False
+
+
 class Top:
     kind = "top"
 
@@ -587,6 +600,8 @@ class MethodTr:
                 and isinstance(st.body[0].op, ast.Add) and isinstance(st.body[0].value, ast.Constant) and st.body[0].value.value == 1 \
                 and env.get(st.body[0].target.id) == "Z":
             x = st.body[0].target.id
+            if not stops_at_end(st.test):
+                fail(st, "`while C: x += 1` whose condition does not turn false at the end of the tokens (it would not terminate there)")
             saved = (self.pre, self.pre_ok)
             self.pre, self.pre_ok = None, False
             try:
